@@ -229,6 +229,10 @@ def build_rule(spec, cache=None):
     if spec.get("until") is not None:
         kw["until"] = dt(spec["until"])
     c = spec.get("cache", False) if cache is None else cache
+    if spec.get("implicit_dtstart"):
+        # no dtstart given: the constructor takes "now" (the simulated clock
+        # stands at spec["dtstart"] when the scenario builds its rules)
+        return rr.rrule(spec["freq"], cache=c, **kw)
     return rr.rrule(spec["freq"], dtstart=dt(spec["dtstart"]), cache=c, **kw)
 
 
